@@ -5,7 +5,7 @@ CONSTANTS
  MaxRecords = 3
  Sizes = {1}
  MaxInput = 1
- Tag = "verif.tag"
+ Tag = "76657269662e746167"
  TraceFile = "trace.ndjson"
 CONSTRAINT HWM
 POSTCONDITION Accepted_
